@@ -25,6 +25,7 @@ SPECS = {
     'cond-multi': ('space', (('many', 2, (C, ('space', (('one', (C, C)),))), False, False),)),
     'cond-distinct': ('space', (('many', 2, (C, C, ('space', (('many', 2, (C, C, C), True, True),))), True, False),)),
     'permutation': ('space', (('many', 3, (C, C, C), True, False),)),
+    'perm-cond': ('space', (('many', 3, (('space', (('one', (C, C)),)), ('space', (('one', (C, C, C)),)), C), True, False),)),
     'two-perms': ('space', (('many', 3, (C, C, C), True, False), ('many', 2, (C, C), True, False), ('one', (C, C)))),
 }
 
@@ -176,7 +177,7 @@ OPS = {
 
 def op_item(rec, item):
   sname, opname, tier = item
-  if opname in ('rec.PartiallyMapped', 'rec.Order', 'rec.Cycle') and sname not in ('permutation', 'two-perms', 'flat'):
+  if opname in ('rec.PartiallyMapped', 'rec.Order', 'rec.Cycle') and sname not in ('permutation', 'two-perms', 'flat', 'perm-cond'):
     return
   d = SPECS[sname]
   spec = D.mk(d)
